@@ -267,6 +267,14 @@ func checkC10(c C10Case) Verdict {
 		return bad(true, "placeholder names differ from the naming rule\n got  %v\n want %v\n%s", got, wantSeq, src)
 	}
 
+	// (4b) the id equals the official fingerprint of the content string (independent port, anchored on
+	// the known answers of the Java implementation in harness/ref/fingerprint_test.go)
+	if content, cerr := contentString(msg.Body, want); cerr == nil {
+		if wantID := ref.MessageID(content, msg.Meaning); wantID != m0.id {
+			return bad(true, "message id %d differs from the official fingerprint %d of content %q (meaning %q)\n%s", m0.id, wantID, content, msg.Meaning, src)
+		}
+	}
+
 	// (1) determinism in this process
 	reps := scale(15, 40)
 	for i := 0; i < reps; i++ {
@@ -460,4 +468,59 @@ func TestC10Child(t *testing.T) {
 		t.Fatal(err)
 	}
 	fmt.Printf("MSGID %d %s\n", in[0].id, strings.Join(in[0].names, ","))
+}
+
+// contentString builds the string the official algorithm fingerprints: text and placeholder names
+// (without braces), or for a plural message the ICU-like form with braced placeholders.
+func contentString(body []ref.Cmd, names map[string]string) (string, error) {
+	var render func(cmds []ref.Cmd, braces bool) (string, error)
+	render = func(cmds []ref.Cmd, braces bool) (string, error) {
+		var b strings.Builder
+		ph := func(n string) {
+			if braces {
+				b.WriteString("{" + n + "}")
+			} else {
+				b.WriteString(n)
+			}
+		}
+		for _, c := range ref.MergeText(cmds) {
+			switch c.K {
+			case "text":
+				s := ref.NormalizeText(c.Text)
+				last := 0
+				for _, loc := range tagRe.FindAllStringIndex(s, -1) {
+					b.WriteString(s[last:loc[0]])
+					ph(names["tag:"+s[loc[0]:loc[1]]])
+					last = loc[1]
+				}
+				b.WriteString(s[last:])
+			case "sp":
+				b.WriteString(" ")
+			case "print":
+				key := "print:" + gen.PrintExpr(c.Expr)
+				for _, d := range c.Directives {
+					key += "|" + d.Name
+				}
+				ph(names[key])
+			case "plural":
+				b.WriteString("{" + names["plural:"+gen.PrintExpr(c.Expr)] + ",plural,")
+				for _, br := range c.Branches {
+					inner, err := render(br.Body, true)
+					if err != nil {
+						return "", err
+					}
+					fmt.Fprintf(&b, "=%d{%s}", br.Int, inner)
+				}
+				inner, err := render(c.Else, true)
+				if err != nil {
+					return "", err
+				}
+				b.WriteString("other{" + inner + "}}")
+			default:
+				return "", fmt.Errorf("unexpected %s", c.K)
+			}
+		}
+		return b.String(), nil
+	}
+	return render(body, false)
 }
